@@ -55,7 +55,8 @@ func mainM(c *Ctx) *mainModel {
 		T := mainPkg + "." + name
 		if st, ok := tn.Type().Underlying().(*types.Struct); ok {
 			for i := 0; i < st.NumFields(); i++ {
-				if eng.TypeName(st.Field(i).Type()) == "service.ReplayCache" {
+				// held by value: a struct that merely carries a pointer to the history (a settings bundle) is not the server object
+				if _, isPtr := st.Field(i).Type().(*types.Pointer); !isPtr && eng.TypeName(st.Field(i).Type()) == "service.ReplayCache" {
 					m.serverT = T
 				}
 			}
